@@ -340,6 +340,46 @@ def _extent_too_small(events: typing.Sequence[int], union: bool, cap: typing.Any
     return bool(c * 8 < _max_bits(events, union, cap))
 
 
+def make_section_scope(variant: str):
+    """
+    Constants are scoped to their section: a service declares the SAME constant names in both sections with different
+    (symbolic) values and refers to them in later statements of each section.
+    """
+    text = ("uint8 CAP = a\nuint8[<=CAP] x\nuint16 DOUBLE = CAP * 2\n@assert CAP == a\n@sealed\n"
+            "---\n"
+            "uint8 CAP = b\nuint8[<=CAP] y\nuint16 DOUBLE = CAP * 2 + 1\n@assert CAP == b\n@sealed\n")
+    if variant == "response-only-use":
+        text = ("uint8 CAP = a\nuint8 x\n@sealed\n---\nuint8 CAP = b\nuint8[<=CAP] y\nuint16 DOUBLE = CAP * 2 + 1\n@sealed\n")
+    if variant == "crlf":
+        text = text.replace("\n", "\r\n")
+
+    def h(a: int, b: int) -> typing.Any:
+        import pydsdl
+        from pydsdl import _expression as E
+
+        if not (1 <= a <= 100 and 1 <= b <= 100):
+            return None
+        try:
+            t, _ = textio.read_text(text, {"a": E.Rational(a), "b": E.Rational(b)}, full_name="ns.T")
+        except pydsdl.InvalidDefinitionError as ex:
+            return "rejected: %s" % type(ex).__name__
+        rq, rs = t.request_type, t.response_type
+        if rq.constants[0].value.native_value != a or rs.constants[0].value.native_value != b:
+            return "constant CAP"
+        if variant != "response-only-use":
+            if rq.fields[0].data_type.capacity != a:
+                return "request array capacity is not the request's CAP"
+            if rq.constants[1].value.native_value != 2 * a:
+                return "request DOUBLE"
+        if rs.fields[0].data_type.capacity != b:
+            return "response array capacity is not the response's CAP"
+        if rs.constants[1].value.native_value != 2 * b + 1:
+            return "response DOUBLE is not computed from the response's CAP"
+        return True
+
+    return h
+
+
 # ------------------------------------------------------------------------------------------------------------------
 
 
@@ -384,6 +424,10 @@ def conditions(tier: str, seed: int) -> typing.List[Cond]:
                                          "(LF/CRLF x final newline, wide blanks + trailing blanks, tabs, extra blank lines "
                                          "and detached comments); canonical round trip" % (m, len(vs))],
                             witness=None, budget=1800.0, need_exhaust=True, key="key_c03"))
+    for variant in ("both", "response-only-use", "crlf"):
+        out.append(Cond(PROP, "c03.section-scope", make_section_scope, {"variant": variant}, {"a": int, "b": int},
+                        assumptions=["constant values a, b in 1..100 (symbolic), same constant names in request and response"],
+                        fmtstub=True, witness={"a": 3, "b": 5}, budget=240.0, need_exhaust=True, key="key_c03"))
     seqs = [[E_CONST, E_ARRAY, E_FIELD], [E_ARRAY, E_DOCFIELD, E_CONST], [E_FIELD, E_CONST, E_BLANK, E_ARRAY],
             [E_DOCFIELD, E_ARRAY, E_DETACHED, E_CONST], [E_PAD, E_ARRAY, E_CONST]]
     for ev in (seqs if thorough else seqs[:2] + [rnd.choice(seqs[2:])]):
